@@ -40,6 +40,13 @@ func (m *hotReloadManager) startServer() error {
 	m.mu.Lock()
 	defer m.mu.Unlock()
 
+	// Load the new version before touching the running server: a file that
+	// does not read, parse or compile must leave the previous version serving.
+	srv, useCompiler, err := m.buildDevServer()
+	if err != nil {
+		return err
+	}
+
 	// Stop existing server if running
 	if m.server != nil {
 		ctx, cancel := context.WithTimeout(context.Background(), 2*time.Second)
@@ -48,34 +55,31 @@ func (m *hotReloadManager) startServer() error {
 		time.Sleep(100 * time.Millisecond) // Allow port to be released
 	}
 
-	// Start dev server with live reload support
-	srv, err := m.startDevServerInternal()
-	if err != nil {
-		return err
-	}
+	m.runDevServer(srv, useCompiler)
 
 	m.server = srv
 	return nil
 }
 
-// startDevServerInternal starts the development server with live reload support
-func (m *hotReloadManager) startDevServerInternal() (*http.Server, error) {
+// buildDevServer loads the current source file and builds the development
+// server (with live reload support) for it, without starting it.
+func (m *hotReloadManager) buildDevServer() (*http.Server, bool, error) {
 	// Read source file
 	source, err := os.ReadFile(m.filePath)
 	if err != nil {
-		return nil, fmt.Errorf("failed to read file: %w", err)
+		return nil, false, fmt.Errorf("failed to read file: %w", err)
 	}
 
 	// Parse the source
 	module, err := parseSource(string(source))
 	if err != nil {
-		return nil, fmt.Errorf("parse error: %w", err)
+		return nil, false, fmt.Errorf("parse error: %w", err)
 	}
 
 	// Use shared logic for route compilation/interpretation
 	useCompiler, _, wsServer, router, err := setupRoutes(module, m.filePath)
 	if err != nil {
-		return nil, err
+		return nil, false, err
 	}
 
 	// Create HTTP server with live reload support
@@ -103,7 +107,7 @@ func (m *hotReloadManager) startDevServerInternal() (*http.Server, error) {
 
 	// Register static file routes
 	if err := registerStaticRoutes(mux, module, m.filePath, m.port); err != nil {
-		return nil, err
+		return nil, false, err
 	}
 
 	srv := &http.Server{
@@ -115,7 +119,11 @@ func (m *hotReloadManager) startDevServerInternal() (*http.Server, error) {
 		MaxHeaderBytes: 1 << 20, // 1 MB
 	}
 
-	// Start server in background
+	return srv, useCompiler, nil
+}
+
+// runDevServer starts a server built by buildDevServer in the background.
+func (m *hotReloadManager) runDevServer(srv *http.Server, useCompiler bool) {
 	go func() {
 		mode := "compiled"
 		if !useCompiler {
@@ -131,8 +139,6 @@ func (m *hotReloadManager) startDevServerInternal() (*http.Server, error) {
 
 	// Give server time to start
 	time.Sleep(100 * time.Millisecond)
-
-	return srv, nil
 }
 
 // handleLiveReload handles Server-Sent Events for live reload
